@@ -33,6 +33,20 @@ def run(ck: Check):
     ck.cov["worst_case_tests"] = {f"{k[0]}/n={k[1]}": {"tests": v, "bound": c09_bound(k[1])}
                                   for k, v in worst.items()}
     extra(ex, ck, worst)
+    # a time limit that runs out in the middle of a run: the strategy stops, it does not fail
+    rl = rng("c09-limit")
+    for strategy in ("minimize", "minimize-around", "minimize-balanced", "minimize-collapse-brace"):
+        for i in range(6 if quick else 60):
+            n = rl.randint(3, 12)
+            tcl = (b"", [(b"{ %d\n", b"} %d\n", b"x%d\n")[(j + i) % 3] % j for j in range(n)], [True] * n, b"")
+            limit = rl.choice([1, 5])
+            t0, clock = 100, []
+            for _ in range(120):
+                clock.append(t0)
+                t0 += rl.choice([0, 0, 1, limit, limit + 1])
+            for cfg in ({"limit": limit}, {"limit": limit, "repeat": "always"}):
+                ex.one(strategy, cfg, tcl, content(tcl), "Y" + "".join(rl.choice("YN") for _ in range(80)), clock=clock, stream="limit-expires",
+                       model=strategy != "minimize-collapse-brace")
     # chunk sizes the command line must refuse (0, negative, not a power of two) through every option that sets them: if
     # one is accepted after all, the run still has to end within the bound and without an internal error
     from explore import replay_doc
